@@ -112,10 +112,15 @@ package load
 //@   float real
 //@   requires p.shedder != nil
 //@   ensures  p.shedder.flying == old(p.shedder.flying) - 1
+// the latency recorded for a completed request is its duration in milliseconds rounded UP (a sub-millisecond request counts
+// as 1 ms: recording 0 would collapse the minimum-latency factor of the capacity estimate), and one pass is recorded
 //@ func (p *promise) Pass
 //@   property C02
 //@   float real
 //@   requires p.shedder != nil && shOK(p.shedder)
+//@   ghost at after Since#0: el = ret
+//@   call Add#0: assert real(arg_v) * 1000000.0 >= real(el) && (real(arg_v) - 1.0) * 1000000.0 < real(el)
+//@   call Add#1: assert arg_v == 1
 //@   ensures  p.shedder.flying == old(p.shedder.flying) - 1
 
 //@ func (s nopShedder) Allow
